@@ -266,6 +266,8 @@ def sessions(cfg):
             A.append(mk('SaveSession', sid=s, ns=ns, val=w))
             A.append(mk('SessionBlock', sid=s, ns=ns,
                         val=w + cfg.get('block_suffix', 'b')))
+            A.append(mk('SessionNested', sid=s, ns=ns,
+                        val=w + cfg.get('block_suffix', 'b')))
             A.append(mk('GetSession', sid=s, ns=ns))
     return A
 
